@@ -121,8 +121,44 @@ class Multiline:
     self
     """
     for of in gfa_line.tagnames:
+      self._check_mergeable(of, gfa_line.get(of), gfa_line.get_datatype(of))
+    for of in gfa_line.tagnames:
       self.add(of, gfa_line.get(of), gfa_line.get_datatype(of))
     return self
+
+  def _check_mergeable(self, tagname, value, datatype):
+    """
+    Check that a tag of a line to merge is consistent with the header,
+    so that either all tags of the line are merged or none.
+    """
+    prev = self.get(tagname)
+    if prev is None:
+      return
+    if tagname in self.SINGLE_DEFINITION_TAGS:
+      if self.field_to_s(tagname) != \
+          gfapy.Field._to_gfa_field(value, fieldname=tagname):
+        raise gfapy.InconsistencyError(
+          "Inconsistent values for header tag {} found\n".format(tagname)+
+          "Previous definition: {}\n".format(prev)+
+          "Current definition: {}".format(value))
+    elif self.vlevel > 1 and datatype is not None and \
+        datatype != self.get_datatype(tagname):
+      raise gfapy.InconsistencyError(
+        "Datadatatype mismatch error for field {}:\n".format(tagname)+
+        "value: {}\n".format(value)+
+        "existing datatype: {};\n".format(self.get_datatype(tagname))+
+        "new datatype: {}".format(datatype))
+
+  def _save_tags(self):
+    data = {}
+    for k, v in self._data.items():
+      if isinstance(v, gfapy.FieldArray):
+        v = gfapy.FieldArray(v.datatype, list(v))
+      data[k] = v
+    return (data, dict(self._datatype))
+
+  def _restore_tags(self, saved):
+    self._data, self._datatype = saved
 
   def _tags(self):
     """
